@@ -184,7 +184,7 @@ package keepclient
 //@   calls KeepClient.Get#1: set gerr = $r3
 //@   calls KeepClient.Get#1: set dlen = $r1
 //@   calls io.ReadFull#1: set rferr = $r1
-//@   calls ReadCloser.Close#1: set clerr = $r
+//@   calls ReadCloser.Close#2: set clerr = $r
 //@   ensures b.err == nil ==> gerr == nil && rferr == nil && clerr == nil && int64(len(b.data)) == dlen
 
 // Get: an existing cache entry is used only if it was found and holds no
